@@ -82,7 +82,10 @@ type GeomOpts struct {
 	RingBound  bool                  // include orb.Ring and orb.Bound
 	MaxLen     int                   // maximum number of elements per slice level (default 4)
 	ClosedRing bool                  // rings are closed (first == last) and have >= 4 vertices
+	Huge       bool                  // rarely (1 in 300 slice levels) a level has hundreds of elements
 }
+
+var hugeSizes = []int{127, 128, 129, 255, 256, 257, 258, 511, 512, 513, 1023, 1024, 1025}
 
 func (o *GeomOpts) n(r *h.Rand, min int) int {
 	m := o.MaxLen
@@ -94,6 +97,9 @@ func (o *GeomOpts) n(r *h.Rand, min int) int {
 	}
 	if min == 0 {
 		min = 1
+	}
+	if o.Huge && r.P(1, 300) {
+		return hugeSizes[r.Intn(len(hugeSizes))]
 	}
 	if r.P(1, 30) {
 		return min + r.Intn(40)
